@@ -65,6 +65,10 @@ class C03(Prop):
             pick = maps if (n == 1 or thorough) else rng.sample(maps, 2500)
             for i, m in enumerate(pick):
                 yield {"k": "tf", "kind": "list", "m": m, "ins": allp, "pkg": "py"}
+                if i % 7 == 0:
+                    # operands / maps in other memory layouts (views, column-major arrays, results of inverse())
+                    yield {"k": "tf", "kind": ("list", "poly")[(i // 7) % 2], "m": m, "ins": allp,
+                           "layout": (None, "rev", "step", "fortran", "cols")[(i // 7) % 5], "mlayout": ("inverse", None, "fortran", "step", None)[(i // 7) % 5]}
                 if i % 10 == 0:
                     yield {"k": "tf", "kind": "kernel", "m": m, "ins": allp, "pkg": "py"}
                     yield {"k": "tf", "kind": "poly", "m": m, "ins": allp, "pkg": "py"}
@@ -171,10 +175,20 @@ class C03(Prop):
             rec["qs"] = qs
         try:
             M = be.cmap(m)
+            lay, mlay = scn.get("layout"), scn.get("mlayout")
+            if mlay == "inverse":
+                M = M.inverse().inverse()          # the same map, in whatever layout inverse() returns
+                rec["m"] = be.p_list(M)
+            elif mlay:
+                M = be.relayout(M, mlay)
+            if lay or mlay:
+                rec["layout"] = [lay or "", mlay or ""]
             n = len(ins[0]) - 1
             mk = mask_of(be, qs, n) if qs else None
             if kind == "list":
                 L = be.plist(ins)
+                if lay:
+                    L = be.relayout(L, lay)
                 L.transform_by(M, mk) if qs else L.transform_by(M)
                 rec["outs"] = be.p_list(L)
             elif kind == "kernel":
@@ -184,6 +198,8 @@ class C03(Prop):
             elif kind == "poly":
                 cs = [(j % 5 + 1) * 0.25 - 1j * (j % 4) for j in range(len(ins))]
                 L = be.poly(ins, cs)
+                if lay:
+                    L = be.relayout(L, lay)
                 L.transform_by(M, mk) if qs else L.transform_by(M)
                 rec["outs"] = be.p_list(L)
                 rec["csok"] = [complex(c) for c in be.tolist(L.cs)] == [complex(c) for c in cs]
